@@ -428,6 +428,21 @@ func RecursionFamily() []struct {
 		out = append(out, item{fmt.Sprintf("member-cycle-%d-one-top-level-struct", n), &Schema{Defs: []*Def{st("Plain", f("x", Simple("int32"))), u}}, true})
 		out = append(out, item{fmt.Sprintf("member-cycle-%d-three-top-level-structs", n), &Schema{Defs: []*Def{u, st("Pa", f("x", Simple("int32"))), st("Pb", f("a", Simple("Pa"))), st("Pc", f("b", Simple("Pb")))}}, true})
 	}
+	// containment through a DEPRECATED struct field is containment all the same (struct encoders do
+	// not skip deprecated fields; only messages do)
+	df := func(name string, t Type) Field { return Field{Name: name, Type: t, Deprecated: true, DepMsg: "use alpha"} }
+	out = append(out, item{"struct-direct-through-deprecated-field", &Schema{Defs: []*Def{st("Node", f("alpha", Simple("int32")), df("next", Simple("Node")))}}, true})
+	out = append(out, item{"struct-cycle-2-closed-by-deprecated-field", &Schema{Defs: []*Def{
+		st("Cyc0", f("alpha", Simple("int32")), f("next", Simple("Cyc1"))), st("Cyc1", f("alpha", Simple("int32")), df("next", Simple("Cyc0")))}}, true})
+	out = append(out, item{"struct-cycle-3-all-deprecated-fields", &Schema{Defs: []*Def{
+		st("Cyc0", df("next", Simple("Cyc1"))), st("Cyc1", df("next", Simple("Cyc2"))), st("Cyc2", df("next", Simple("Cyc0")))}}, true})
+	out = append(out, item{"cycle-inside-union-branch-through-deprecated-field", &Schema{Defs: []*Def{
+		{Kind: "union", Name: "Uni1", Branches: []Branch{{Index: 1, Def: st("BrA", f("alpha", Simple("int32")), df("self", Simple("BrA")))}}}}}, true})
+	out = append(out, item{"deprecated-struct-field-acyclic-accepted", &Schema{Defs: []*Def{
+		st("Leaf", f("alpha", Simple("int32"))), st("Holder", f("alpha", Simple("int32")), df("old", Simple("Leaf")))}}, false})
+	// a message field that is deprecated still terminates the recursion (positive)
+	out = append(out, item{"through-deprecated-message-field-accepted", &Schema{Defs: []*Def{
+		{Kind: "message", Name: "Node", Fields: []Field{mf(1, "alpha", Simple("int32")), {Name: "next", Type: Simple("Node"), Index: 2, Deprecated: true, DepMsg: "gone"}}}}}, false})
 	// a cycle that alternates between a top-level struct and a union member
 	out = append(out, item{"cycle-top-level-and-member", &Schema{Defs: []*Def{
 		st("Top", f("m", Simple("Mem0"))),
